@@ -25,7 +25,7 @@ func init() {
 	})
 	Register("C18.push", func(c *Ctx) {
 		c.offerHeaders = true
-		runC03(c, true)
+		runC03(c, true, false)
 		c.Res.Class, c.Res.Detail = "", ""
 		monitorB(c)
 	})
